@@ -22,6 +22,17 @@ so the table below cannot silently rot).  After the loss: every outstanding requ
 the session thread has ended; `connected` is False; then EVERY request of the table - synchronous and asynchronous, in table
 order and once more in reverse - is refused with a TransportError, promptly, and nothing reaches the peer.  Nothing looks at
 the source or at the attributes of the session object (the correspondence with Model/SessionEnd.v reads two of them, apart).
+
+The CLOSING operations are requests / calls of the API as well, and they are the ones an application makes on a lost session
+(from its error handler, or implicitly by leaving `with manager:`): `close_session()` (a request on the live twin: the peer
+receives <close-session>; it also calls `session.close()` - a SECOND close, the session thread closed the session when it
+processed the loss), leaving the manager's with-block (without an exception, with an exception of the body, with a body whose
+request is refused), and further explicit `session.close()` calls.  `closing` = the sequence of them made on the ended session,
+before or after the table (`closing_first`).  Oracle: close_session() (synchronous, asynchronous) and leaving the with-block
+are refused with a TransportError; when the body raised, what leaves the block is the body's exception or a TransportError
+that carries it as its context - never another exception in its place; session.close() returns (or is refused with a
+TransportError); each comes back promptly; the session stays disconnected and nothing reaches the peer.  On the live twin the
+last call is the closing operation `twin_close`: the peer must receive the <close-session> for it (so it IS a request).
 """
 import re, socket, threading, time
 from . import real_end as R
@@ -271,6 +282,61 @@ def classify(r):
     if isinstance(r[1], MissingCapabilityError): return 2
     return 3
 
+# ---- the closing operations -------------------------------------------------------------------------------------------------
+class BodyError(Exception):
+    """what the body of a with-block raises (an exception of the application, not of the library)"""
+
+CLOSING = ('close', 'close_session', 'close_session/async', 'with', 'with/raise', 'with/request')
+CLOSING_DEFAULT = ['close_session', 'close', 'with', 'with/raise', 'close', 'close_session/async', 'with/request', 'close']
+CLOSING_CODE = {n: i for i, n in enumerate(CLOSING)}
+# on the live twin: the synchronous ones (an asynchronous close_session() closes the transport while its request is still queued)
+TWIN_CLOSING = ('close_session', 'with', 'with/raise', 'with/request')
+
+def closing_call(name, ses, m, ma):
+    def w_pass():
+        with m: pass
+    def w_raise():
+        with m: raise BodyError('raised by the body of the with-block')
+    def w_request():
+        with m: m.get_config(source='running')
+    return {'close': lambda: ses.close(), 'close_session': lambda: m.close_session(), 'close_session/async': lambda: ma.close_session(),
+            'with': w_pass, 'with/raise': w_raise, 'with/request': w_request}[name]
+
+def _chain(e):
+    seen = []
+    while e is not None and e not in seen:
+        seen.append(e); e = e.__cause__ or e.__context__
+    return seen
+
+def classify_closing(name, r):
+    """classify() + 5: the exception of the with-block's body left the block"""
+    if r is not None and r[0] == 'error' and isinstance(r[1], BodyError): return 5
+    return classify(r)
+
+def judge_closing(tag, name, r):
+    """the property on ONE closing operation made on the ended session -> None or a text"""
+    from ncclient.transport.errors import TransportError
+    what = {'close': 'session.close()', 'close_session': 'close_session()', 'close_session/async': 'an asynchronous close_session()',
+            'with': 'leaving the with-block of the manager', 'with/raise': 'leaving the with-block of the manager with an exception of the body',
+            'with/request': 'leaving the with-block of the manager after the request of its body was refused'}[name]
+    if r is None:
+        return '%s: %s after the loss did not return within its timeout' % (tag, what)
+    err = r[1] if r[0] == 'error' else None
+    desc = 'returned' if err is None else 'raised %s (%s)' % (type(err).__name__, str(err)[:60])
+    if name == 'close':
+        if err is not None and not isinstance(err, TransportError):
+            return '%s: %s on the session that was lost (closed already by the session thread) %s' % (tag, what, desc)
+    elif name == 'with/raise':
+        if err is None:
+            return '%s: %s: the exception of the body disappeared' % (tag, what)
+        if not isinstance(err, BodyError) and not (isinstance(err, TransportError) and any(isinstance(x, BodyError) for x in _chain(err))):
+            return '%s: %s %s in place of the exception of the body / the transport error of the refused <close-session>' % (tag, what, desc)
+    elif err is None or not isinstance(err, TransportError):
+        return '%s: %s after the loss %s instead of being refused with a transport error' % (tag, what, desc)
+    if r[2] > PROMPT:
+        return '%s: %s after the loss came back only after %.1f s' % (tag, what, r[2])
+    return None
+
 def run_later(case):
     """-> None or a text"""
     from ncclient.transport.errors import TransportError
@@ -302,6 +368,18 @@ def run_later(case):
                 return 'rig: %s: %s returned on the live session but the peer received no <rpc> for it' % (tag, o['name'])
             requests.append(o)
         requests += [o for o in ops if o['like'] and any(q['name'] == o['like'] for q in requests)]
+        # the closing operation is a request: the peer of the live twin receives a <close-session> for it (and the reply comes back)
+        tc = case.get('twin_close', 'close_session')
+        n_before = len(twin.srv.ids)
+        r = timed(closing_call(tc, twin.ses, m, ma))
+        c = classify_closing(tc, r)
+        tie['live_closing'] = [[CLOSING_CODE[tc], c]]
+        if c != (5 if tc == 'with/raise' else 0):
+            return 'rig: %s: %s on the LIVE session: %r' % (tag, tc, r and r[1])
+        if not twin.srv.wait_ids(n_before + (2 if tc == 'with/request' else 1)) or b'close-session' not in twin.srv.stream:
+            return 'rig: %s: %s on the live session but the peer received no <close-session>' % (tag, tc)
+        if twin.ses.connected:
+            return '%s: the session still reports connected after %s on the live session' % (tag, tc)
     finally:
         twin.cleanup()
     if not requests:
@@ -360,6 +438,24 @@ def run_later(case):
         tie['caps_known'] = 1 if ses._server_capabilities is not None else 0
         tie['has_id'] = 1 if ses._id is not None else 0
         n_ids = len(st.srv.ids)
+        tie['closing'] = []
+        def closing_phase():
+            for name in case.get('closing', CLOSING_DEFAULT):
+                r = timed(closing_call(name, ses, m, ma))
+                tie['closing'].append([CLOSING_CODE[name], classify_closing(name, r)])
+                f = judge_closing(tag, name, r)
+                if f: return f
+                if ses.connected or m.connected:
+                    return '%s: the session reports connected again after %s on the lost session' % (tag, name)
+            r = timed(lambda: m.get_config(source='running'))
+            if classify(r) != 1:
+                return ('%s: a request made after the closing operations %s on the lost session was not refused with a transport error: %r'
+                        % (tag, case.get('closing', CLOSING_DEFAULT), r and r[1]))
+            tie['handle'] = 1 if (ses._channel if kind == 'ssh' else ses._socket) is not None else 0
+            return None
+        if case.get('closing_first'):
+            f = closing_phase()
+            if f: return f
         for mode, mgr in (('synchronous', m), ('asynchronous', ma)):
             seq = ops if mode == 'synchronous' else list(reversed(ops))
             for o in seq:
@@ -376,6 +472,9 @@ def run_later(case):
                             % (tag, mode, o['name'], 'was accepted' if c == 0 else 'raised %s (%s)' % (type(r[1]).__name__, str(r[1])[:60])))
                 if r[2] > PROMPT:
                     return '%s: a %s %s request made after the loss was refused only after %.1f s' % (tag, mode, o['name'], r[2])
+        if not case.get('closing_first'):
+            f = closing_phase()
+            if f: return f
         if len(st.srv.stream) and len(st.srv.ids) != n_ids:
             return '%s: the peer received a request after the connection was lost' % tag
         case['_stats'] = dict(ops=len(ops), requests=len(requests), outstanding=len(held) + 1)
@@ -387,9 +486,10 @@ def run_later(case):
 def core_cases():
     """each transport once with everything advertised (every operation of the base table is a request), the three profiles that
     replace base operations / add capability-dependent ones on different transports"""
-    return [dict(kind='unix', profile='default', n_out=2, answered=1, loss='partial'),
-            dict(kind='ssh', profile='junos', n_out=2, answered=0, loss='close'),
-            dict(kind='tls', profile='sros', n_out=1, answered=1, loss='close', base11=True)]
+    return [dict(kind='unix', profile='default', n_out=2, answered=1, loss='partial', twin_close='with/raise'),
+            dict(kind='ssh', profile='junos', n_out=2, answered=0, loss='close', closing_first=True, twin_close='with',
+                 closing=['with/raise', 'close', 'close', 'close_session/async', 'with', 'close_session', 'with/request']),
+            dict(kind='tls', profile='sros', n_out=1, answered=1, loss='close', base11=True, twin_close='with/request')]
 
 def gen_case(rng, kind=None):
     kind = kind or rng.choice(KINDS)
@@ -397,6 +497,10 @@ def gen_case(rng, kind=None):
              loss=rng.choice(['close', 'partial'] + (['inactive_first'] if kind == 'ssh' else [])), base11=rng.random() < 0.4)
     if rng.random() < 0.4:
         c['drop'] = sorted(rng.sample([a for a, _ in CAPS], rng.choice([1, 2, 4])))
+    # the closing operations on the ended session: any sequence (a second, third ... close() of every origin), before or after the table
+    c['closing'] = [rng.choice(CLOSING) for _ in range(rng.choice([1, 2, 3, 5, 8]))]
+    c['closing_first'] = rng.random() < 0.5
+    c['twin_close'] = rng.choice(TWIN_CLOSING)
     return c
 
 def all_cases():
@@ -409,6 +513,11 @@ def all_cases():
             for n_out in (0, 1, 15):
                 out.append(dict(kind=kind, profile='default', n_out=n_out, answered=0, loss=loss))
         out.append(dict(kind=kind, profile='default', n_out=1, answered=1, loss='close', drop=[':candidate', ':validate']))
+        # every closing operation as the FIRST one after the loss (the second close() of the session), then twice more; every
+        # closing operation once as the last call on the live twin
+        for i, first in enumerate(CLOSING):
+            out.append(dict(kind=kind, profile='default', n_out=1, answered=0, loss=('close', 'partial')[i % 2], closing=[first, first, 'close', first],
+                            closing_first=(i % 2 == 0), twin_close=TWIN_CLOSING[i % len(TWIN_CLOSING)], out_ops=['get']))
     return out
 
 def judge(case, tries=2):
@@ -428,13 +537,29 @@ def judge(case, tries=2):
 
 # ---- correspondence with Model/SessionEnd.v (runner HIST, call 11): the outcome class of every call of the table on the live
 # twin and on the ended session, and what the ended object still knows of the negotiation ---------------------------------------
+MODEL_COP = {'close': 0, 'close_session': 1, 'close_session/async': 1, 'with': [2, 0], 'with/raise': [2, 1], 'with/request': [2, []]}
+MODEL_STYLE = {'tls': 0, 'unix': 0, 'ssh': 1}        # close() keeps the socket | drops the channel behind a guard
+
 def model_calls(case, tie):
     caps = [CAPIDX[a] for a in advertised(case)]
-    return [[11, caps, 7, 0, [x[1] for x in tie['live']]], [11, caps, 7, 1, [x[1] for x in tie['later']]]]
+    cop = lambda rows: [MODEL_COP[CLOSING[x[0]]] for x in rows]
+    sty = MODEL_STYLE[case['kind']]
+    return [[11, caps, 7, 0, [x[1] for x in tie['live']]], [11, caps, 7, 1, [x[1] for x in tie['later']]],
+            [12, caps, 7, sty, 0, cop(tie.get('live_closing') or [])], [12, caps, 7, sty, 1, cop(tie.get('closing') or [])]]
 
 def compare(case, tie, mos):
     """-> None or the first difference between Model/SessionEnd.request and the real calls"""
     if not tie: return None
+    for which, mo, n in (('live_closing', mos[2], 0), ('closing', mos[3], 1)):
+        rows = tie.get(which) or []
+        if isinstance(mo, str) or not isinstance(mo, list) or len(mo) != 2 or len(mo[0]) != len(rows):
+            return 'model runner rejected the call: %r' % (mo,)
+        for (code, c), want in zip(rows, mo[0]):
+            if c != want:
+                return ('%s on the %s session: outcome class %d, the model %d (0 returned, 1 transport error, 2 missing capability, 3 other exception, '
+                        '4 no return, 5 the exception of the with-block\'s body)' % (CLOSING[code], 'live' if n == 0 else 'lost', c, want))
+        if n == 1 and tie.get('handle') is not None and [0, tie['handle']] != list(mo[1]):
+            return 'after the closing operations the lost session object has (connected, transport handle referenced) = %r, the model %r' % ([0, tie['handle']], list(mo[1]))
     for which, mo, n in (('live', mos[0], 0), ('later', mos[1], 1)):
         rows = tie[which]
         if isinstance(mo, str) or not isinstance(mo, list) or len(mo) != 2 or len(mo[1]) != len(rows):
